@@ -180,8 +180,19 @@ def _step(rep, obj, op, hist, cls, base_name):
     tree = e1.key_tree(obj)
     before = e1.exact_state_on(obj, tree)
     rep.transitions += 1
+    v0 = e1.defining_vertices(obj).copy() if op.endswith("call:to_hoomd") else None
     try:
         e1.apply_op(obj, op)
+        if v0 is not None:
+            # to_hoomd recentres and restores: the geometry it leaves behind is the geometry it found (wave-7 seed
+            # W7_C03a: the saved centre was an alias of the live one, so the shape stayed at the origin - coherent
+            # with a fresh object built from the moved vertices, hence invisible to the fresh-twin invariant)
+            v1 = e1.defining_vertices(obj)
+            D = float(np.linalg.norm(v0.max(0) - v0.min(0))) + float(np.linalg.norm(v0.mean(0)))
+            if v1.shape != v0.shape or float(np.max(np.abs(v1 - v0))) > 1e-9 * D:
+                rep.violation("coherence", cls, "to_hoomd", "geometry-moved", {"base": base_name, "prefix": list(hist), "depth": len(hist)}, "after %s the vertices differ from those before to_hoomd by %.3g" % (list(hist), float(np.max(np.abs(v1 - v0))) if v1.shape == v0.shape else float("nan")))
+            else:
+                rep.ok("to_hoomd-restores-geometry")
     except Exception as ex:
         # fields that existed before must be bit-identical; private memo fields may have appeared
         after = e1.exact_state_on(obj, tree)
